@@ -1021,9 +1021,21 @@ pub async fn run_chaos<K: EngineKind>(plan: &Plan, scratch: &Path) -> RunOutcome
         keys.push(b"probe".to_vec());
         for id in c.live_ids() {
             if let Some(n) = c.node(id) {
-                let la = n.sm.last_applied().index;
-                let content: Vec<(Vec<u8>, Option<Vec<u8>>)> =
-                    keys.iter().map(|k| (k.clone(), n.sm.get(k).ok().flatten().map(|b| b.to_vec()))).collect();
+                // content and applied index must belong together: the state machine may still be
+                // applying on another thread, so read the index on both sides of the content and
+                // retry until it did not move (a node that never holds still is not judged)
+                let mut stable: Option<(u64, Vec<(Vec<u8>, Option<Vec<u8>>)>)> = None;
+                for _ in 0..8 {
+                    let la = n.sm.last_applied().index;
+                    let content: Vec<(Vec<u8>, Option<Vec<u8>>)> =
+                        keys.iter().map(|k| (k.clone(), n.sm.get(k).ok().flatten().map(|b| b.to_vec()))).collect();
+                    if n.sm.last_applied().index == la {
+                        stable = Some((la, content));
+                        break;
+                    }
+                    std::thread::sleep(std::time::Duration::from_millis(5));
+                }
+                let Some((la, content)) = stable else { continue };
                 let t = c.now();
                 c.rec.online().final_state_check(t, id, n.inc, la, &content);
             }
